@@ -36,6 +36,15 @@ CLAIMS = {
             "result = image exactly, and the contents of weak translators after the call.", "Trusted: TLC, driver read-back.", "DESIGN.md §4 C14"),
     "C15": (MC, "TLC-enumerated and random automata replayed on libvata; TLA+ trace validation of GetCandidateTree's result",
             "TLC decides L(W) within L(A) and W non-empty whenever A is.", "Trusted: TLC, Layer-0 oracle.", "DESIGN.md §4 C15"),
+    "C09": (MC, "TLC-enumerated and random NFA pairs replayed on libvata under a per-case watchdog; verdicts judged by TLC against FA!FAIncl; TLC model check (safety + liveness) of the antichain algorithm with its memo over all pick orders",
+            "Each NFA pair is run through the antichain and both congruence selections of the real CheckInclusion (several presentations and heap perturbations); TLC "
+            "judges each verdict with the forward subset-construction fixpoint; hangs and crashes are violations. The FAAntichain Layer-2 model is checked for every "
+            "pick order for exactness and termination.",
+            "Trusted: TLC, the Layer-0 oracle (cross-checked against bounded word enumeration). Pointer-order dependent schedules of the implementation are sampled by heap perturbation only.", "DESIGN.md §4 C09"),
+    "C10": (MC, "TLC-enumerated and random NFAs replayed on libvata; results (DumpToString parsed back) judged by TLC against FA!FUnion / FProd / FRev / language equality",
+            "Union, UnionDisjointStates, Intersection, Reverse, both trimmings and GetCandidateTree on enumerated and random NFAs (eps-accepting, several start states, "
+            "one-sided start pairs); TLC decides the language contracts; a crash while dumping a result is a violation.",
+            "Trusted: TLC, Layer-0 oracle, the Timbuk parser used for read-back (checked by C13).", "DESIGN.md §4 C10"),
 }
 
 NOT_APPLICABLE = {
